@@ -1,7 +1,7 @@
 /-
 C12 — model of the version / readiness / reload-result state of
 `internal/mode/static/handler.go` (`eventHandlerImpl.HandleEventBatch`, `updateNginxConf`,
-`updateUpstreamServers` as far as its error is concerned), `internal/mode/static/health.go`
+`updateUpstreamServers` as far as its error is concerned; state of /repo c94173a), `internal/mode/static/health.go`
 (`nginxConfiguredOnStartChecker`) and of how `status/prepare_requests.go` folds a reload error
 into Gateway / Listener / Route-parent conditions.
 
@@ -147,14 +147,25 @@ def updateNginxConf (plus : Bool) (b : Batch) (v : Nat) : Emit :=
     err := a.res.isSome, statusUpdated := true,
     fileErr := ApplyErr.fileClass a.res, written := some (filesOnDisk b.nfiles b.files) }
 
+/-- the `EndpointsOnlyChange` arm takes the NGINX Plus API path alone (no files, no reload):
+`h.cfg.plus && h.latestReloadResult.Error == nil` (since /repo c94173a; `lastErr` = the remembered
+result BEFORE this batch) -/
+def apiOnly (plus lastErr : Bool) (b : Batch) : Bool :=
+  plus && !lastErr && b.ct == .endpointsOnly
+
 /-- the `switch changeType` arms for the two change kinds -/
-def apply (plus : Bool) (b : Batch) (v : Nat) : Emit :=
+def apply (plus lastErr : Bool) (b : Batch) (v : Nat) : Emit :=
   match b.ct with
   | .noChange => Emit.none
   | .endpointsOnly =>
-    if plus then ⟨some v, false, Option.none, Option.none, true, !b.apiOk, true, Option.none, Option.none⟩
+    if plus && !lastErr then ⟨some v, false, Option.none, Option.none, true, !b.apiOk, true, Option.none, Option.none⟩
     else updateNginxConf plus b v
   | .clusterState => updateNginxConf plus b v
+
+/-- PRE-FIX variant (code before /repo c94173a), NOT the code: the endpoints-only arm asked
+`h.cfg.plus` only, so after a failed write/reload a successful Plus API call reset the remembered
+result.  Kept only for the regression witness `plus_endpoints_only_resets_failed_reload`. -/
+def applyPreFix (plus : Bool) (b : Batch) (v : Nat) : Emit := apply plus false b v
 
 /-- the `NoChange` arm: only the readiness latch may move -/
 def noChangeStep (s : H) : H :=
@@ -175,8 +186,24 @@ def hstep (plus : Bool) (s : H) (b : Batch) : H × Emit :=
   match b.ct with
   | .noChange => (noChangeStep s, Emit.none)
   | _ =>
-    let e := apply plus b (s.version + 1)
+    let e := apply plus s.lastErr b (s.version + 1)
     (advance s e.err, e)
+
+/-- PRE-FIX variant of `hstep` (see `applyPreFix`) -/
+def hstepPreFix (plus : Bool) (s : H) (b : Batch) : H × Emit :=
+  match b.ct with
+  | .noChange => (noChangeStep s, Emit.none)
+  | _ =>
+    let e := applyPreFix plus b (s.version + 1)
+    (advance s e.err, e)
+
+/-- PRE-FIX variant of `hrun` -/
+def hrunPreFix (plus : Bool) : H → List Batch → H × List Emit
+  | s, [] => (s, [])
+  | s, b :: bs =>
+    let (s1, e) := hstepPreFix plus s b
+    let (s2, es) := hrunPreFix plus s1 bs
+    (s2, e :: es)
 
 /-- a batch sequence: final state and what each batch did -/
 def hrun (plus : Bool) : H → List Batch → H × List Emit
@@ -227,9 +254,9 @@ def fold (t : Target) (reloadErr : Bool) (cs : List Cond) : List Cond :=
 `h.latestReloadResult` (state AFTER the batch) to `Prepare*Requests`. -/
 def issued (after : H) (t : Target) (cs : List Cond) : List Cond := fold t after.lastErr cs
 
-/-- the batch goes through `updateNginxConf` (files + reload) -/
-def needsReload (plus : Bool) (b : Batch) : Bool :=
-  b.ct == .clusterState || (b.ct == .endpointsOnly && !plus)
+/-- the batch goes through `updateNginxConf` (files + reload); `lastErr` = remembered result before it -/
+def needsReload (plus lastErr : Bool) (b : Batch) : Bool :=
+  b.ct == .clusterState || (b.ct == .endpointsOnly && !(plus && !lastErr))
 
 /-- number of batches that build a configuration (each consumes a version, failed or not) -/
 def applies : List Batch → Nat
